@@ -6,6 +6,8 @@
     partitions; segments arrive one after the other (the receiver blocks inside a partial frame) and, in a
     second mode, all at once under every schedule with <= K delays at line granularity.
     Oracle: deliveries and control replies equal those of the uncut stream - same messages, same order.
+(c) a real ByteQueue alone, one producer and one consumer, every schedule with <= K delays at bytecode-instruction granularity.
+(d) outbound: the bytes given to Connection.send_data for every frame size around multiples of the outbound packet size.
 """
 from __future__ import annotations
 
@@ -184,6 +186,141 @@ def run_stream(devs, budgets, seq=None, cuts=None, mode="stepwise"):
     return res
 
 
+# ------------------------------------------------------------------------------------------ (d) outbound bytes
+def check_outbound(case):
+    """Bytes handed to Connection.send_data for one data message, concatenated, are exactly the E37 frame - for every frame size around
+    multiples of the outbound packet size (class attribute send_packet_size, lowered in a subclass for the sweep, default for the big ones)."""
+    psize, lengths = case["psize"], case["lengths"]
+    box = {"got": []}
+
+    def driver(s):
+        if psize is None:
+            proto_cls = secsgem.hsms.HsmsProtocol
+        else:
+            proto_cls = type("SmallPackets", (secsgem.hsms.HsmsProtocol,), {"send_packet_size": psize})
+        from mc import env  # noqa: PLC0415
+
+        settings = env.hsms_settings(active=False)
+        ep = hh.Endpoint(active=False, protocol=proto_cls(settings), settings=settings)
+        if not hh.select_passive(s, ep):
+            box["harness"] = "not selected"
+            return
+        ep.pump()
+        conn = ep.conn
+        for n in lengths:
+            body = bytes((i * 7 + n) & 0xFF for i in range(n))
+            n0 = len(conn.sent)
+            hdr = secsgem.hsms.HsmsStreamFunctionHeader(0x4000 + (n & 0xFFF), 9, 1, False, 0)
+            ok = ep.protocol.send_message(secsgem.hsms.HsmsMessage(hdr, body))
+            s.settle()
+            wire = b"".join(d for _, d, _ in conn.sent[n0:])
+            box["got"].append((n, ok, wire, [len(d) for _, d, _ in conn.sent[n0:]], e37.frame(0, False, 9, 1, 0, 0, 0x4000 + (n & 0xFFF), body)))
+        ep.protocol.disable()
+
+    sched = vrt.run(driver, max_steps=2_000_000, max_time=1e6, line_points=False)
+    if sched.harness_failure or sched.driver_exception or box.get("harness"):
+        return {"v": [("HARNESS|c04-outbound", {"case": case, "trace": (sched.harness_failure or sched.driver_exception or box.get("harness"))[-800:]})], "nt": True}
+    out = []
+    if sched.outcome != "done":
+        out.append((f"C04|outbound-execution-{sched.outcome}", {"case": case, "info": sched.deadlock_info}))
+    for n, ok, wire, sizes, want in box["got"]:
+        total = 14 + n
+        p = psize or 1024 * 1024
+        rel = "multiple" if total % p == 0 else ("multiple+1" if total % p == 1 else ("multiple-1" if total % p == p - 1 else "other"))
+        if not ok:
+            out.append((f"C04|outbound-send-reports-failure|{rel}", {"case": dict(case, lengths=[n])}))
+        elif wire != want:
+            kind = "short" if len(wire) < len(want) else ("long" if len(wire) > len(want) else "altered")
+            out.append((f"C04|outbound-bytes-{kind}|frame-size={rel}-of-packet-size", {"case": dict(case, lengths=[n]), "wire_len": len(wire), "want_len": len(want),
+                                                                                     "send_data_sizes": sizes[:8]}))
+        elif any(x > p for x in sizes):
+            out.append(("C04|outbound-packet-larger-than-packet-size", {"case": dict(case, lengths=[n]), "send_data_sizes": sizes[:8]}))
+    return {"v": out, "nt": True, "cnt": {"outbound_messages": len(box["got"])}}
+
+
+# ------------------------------------------------------------------------------------------ (c) the byte queue alone
+BQ_REGION = ["secsgem.common.byte_queue:ByteQueue.*"]
+
+
+def run_bq(devs, budgets, seq=None, cuts=None, style="hsms"):
+    """One producer appending the segments, one consumer framing them the way the two transports do, on a real ByteQueue;
+    scheduling points at every bytecode instruction of ByteQueue."""
+    from secsgem.common.byte_queue import ByteQueue  # noqa: PLC0415
+
+    box = {"frames": [], "seen": []}
+    raw = [F(k, s) for k, s in seq]
+    stream = b"".join(raw)
+    segs = gen.split_at(stream, cuts)
+
+    def driver(s):
+        q = ByteQueue()
+        trigger = vrt.Event()
+        done = vrt.Event()
+        frames = box["frames"]
+
+        def producer():
+            for seg in segs:
+                q.append(seg)
+                trigger.set()
+            done.set()
+            trigger.set()
+
+        def consumer_hsms():
+            # the loop of HsmsProtocol._process_received_data, run once per wake-up as the receiver thread does
+            while len(b"".join(frames)) < len(stream):
+                trigger.wait()
+                trigger.clear()
+                while len(q) > 3:
+                    length = int.from_bytes(q.peek(4), "big") + 4
+                    if len(q) < length:
+                        break
+                    frames.append(bytes(q.pop(length)))
+                    box["seen"].append(len(q))
+                if done.is_set() and len(q) < 4:
+                    break
+
+        def consumer_blocking():
+            # the blocking style of the SECS-I receiver: wait_for(n) with and without peek
+            for _ in raw:
+                head = q.wait_for(4, peek=True)
+                length = int.from_bytes(head, "big") + 4
+                frames.append(bytes(q.wait_for(length)))
+                box["seen"].append(len(q))
+
+        tc = vrt.Thread(target=consumer_hsms if style == "hsms" else consumer_blocking, name="consumer")
+        tp = vrt.Thread(target=producer, name="producer")
+        tc.start()
+        tp.start()
+        tp.join()
+        tc.join()
+        box["left"] = len(q)
+
+    sched = vrt.run(driver, devs, budgets, max_steps=200000, max_time=1e6, line_points=True)
+    res = {"trace": sched.trace, "v": []}
+    case = {"seq": seq, "cuts": cuts, "style": style, "part": "bq"}
+    if sched.harness_failure or sched.driver_exception:
+        res["harness"] = (sched.harness_failure or sched.driver_exception)[-1000:]
+        res["obs"] = None
+        return res
+    if sched.outcome != "done":
+        res["v"].append((f"C04|byte-queue-execution-{sched.outcome}|{style}", {"case": case, "info": sched.deadlock_info,
+                                                                                "thread_errors": sched.thread_errors[:2]}))
+        res["obs"] = sched.outcome
+        return res
+    # 'seen' = bytes still queued after each pop: differs between interleavings, so the outcome count shows producer and consumer really overlap
+    res["obs"] = {"frames": len(box["frames"]), "left": box["left"], "seen": box["seen"]}
+    if sched.thread_errors:
+        res["v"].append((f"C04|byte-queue-user-raises|{style}", {"case": case, "errors": sched.thread_errors[:2]}))
+    elif box["frames"] != raw:
+        got = b"".join(box["frames"])
+        kind = "bytes-lost" if len(got) < len(stream) else ("bytes-duplicated" if len(got) > len(stream) else
+                                                            ("bytes-altered" if got != stream else "frames-cut-differently"))
+        res["v"].append((f"C04|byte-queue-{kind}|{style}", {"case": case, "got": [f.hex() for f in box["frames"]], "want": [f.hex() for f in raw]}))
+    elif box["left"]:
+        res["v"].append((f"C04|byte-queue-not-empty-at-end|{style}", {"case": case, "left": box["left"]}))
+    return res
+
+
 def _cut_region(stream, seq, cuts):
     if not cuts or len(cuts) == len(stream) - 1:
         return "-"
@@ -206,6 +343,8 @@ def _cut_region(stream, seq, cuts):
 def check_case(case):
     if case["kind"] == "frame":
         return check_frame(case["f"])
+    if case["kind"] == "outbound":
+        return check_outbound(case)
     r = run_stream({}, {}, seq=[tuple(x) for x in case["seq"]], cuts=case["cuts"], mode="stepwise")
     v = r["v"]
     if r.get("harness"):
@@ -232,6 +371,8 @@ def run(ctx):
         "segments are delivered through the in-memory LoopConnection by its receiver thread in chunks of <= 1024 bytes",
         "stepwise mode settles after every segment (default schedule); coalesced mode explores all schedules with <= K delays "
         "of connection receiver, protocol receiver and dispatcher at line granularity",
+        "part (c) drives a real ByteQueue alone with one producer and one consumer that frames the bytes the way HsmsProtocol._process_received_data "
+        "(non-blocking, per wake-up) and the SECS-I receiver (blocking wait_for) do; every bytecode instruction of ByteQueue is a scheduling point",
     ]
     # S part first (line tracing before the pool is forked)
     missing = hh.trace_region(REGION)
@@ -253,12 +394,41 @@ def run(ctx):
             if ctx.out_of_time():
                 break
     ctx.setcov("coalesced_explorations", sparts)
+    # (c) the queue alone, instruction granularity (a second tool pass: the region above stays line-traced for the parts above)
+    fns, _ = vrt.resolve(BQ_REGION)
+    vrt.trace_functions(fns, instructions=True)
+    explore.close_pool()  # workers forked before this point do not see the new events
+    kq = 3 if ctx.thorough else 2
+    bparts = []
+    for seq in (SEQS[3], SEQS[9]):
+        stream = b"".join(F(kk, s) for kk, s in seq)
+        for cuts in ([14], [2, 14], [9, 20], [len(stream) // 2]) + (([4, 14, 18],) if ctx.thorough else ()):
+            for style in ("hsms", "blocking"):
+                st = explore.explore(ctx, run_bq, {"sched": kq}, f"c04-bytequeue-{style}-{len(seq)}-{cuts}", opts={"seq": seq, "cuts": cuts, "style": style})
+                bparts.append({"frames": len(seq), "cuts": cuts, "style": style, "executions": st["executions"], "outcomes": st["distinct_outcomes"],
+                               "levels_completed": st["levels_completed"]})
+                trans += st["executions"]
+                states += st["distinct_outcomes"]
+                if st["levels_completed"] < kq:
+                    ctx.exhaustive = False
+        if ctx.out_of_time():
+            break
+    ctx.setcov("byte_queue_explorations", bparts)
+    ctx.setcov("delay_bound_byte_queue", kq)
     ctx.setcov("delay_bound", k)
 
     def cases():
         for f in frame_cases(ctx.thorough):
             yield {"kind": "frame", "f": f}
         yield from stream_cases(ctx.thorough)
+        # outbound: every frame size 14 .. 3 * P + 16 for small packet sizes P; around 1 (2, 3 thorough) MiB for the shipped P
+        for psize in (5, 16, 64):
+            alln = list(range(0, 3 * psize + 3))
+            for i in range(0, len(alln), 24):
+                yield {"kind": "outbound", "psize": psize, "lengths": alln[i:i + 24]}
+        mib = 1024 * 1024
+        for k in (1,) + ((2, 3) if ctx.thorough else ()):
+            yield {"kind": "outbound", "psize": None, "lengths": [k * mib - 14 + d for d in (-1, 0, 1, 2)]}
 
     n = ctx.run_cases(check_case, cases(), "c04", chunk=32)
     ctx.setcov("states", states + n)
@@ -269,7 +439,14 @@ def run(ctx):
 
 def replay(ctx, detail):
     case = detail["case"]
-    if case.get("part") == "stream":
+    if case.get("part") == "bq":
+        fns, _ = vrt.resolve(BQ_REGION)
+        vrt.trace_functions(fns, instructions=True)
+        devs = {int(k): v for k, v in case.get("devs", {}).items()}
+        r = run_bq(devs, case.get("budgets", {}), seq=[tuple(x) for x in case["seq"]], cuts=case["cuts"], style=case["style"])
+        print("replayed:", r.get("obs"))
+        res = r["v"]
+    elif case.get("part") == "stream":
         if case.get("mode") != "stepwise":
             hh.trace_region(REGION)
         devs = {int(k): v for k, v in case.get("devs", {}).items()}
